@@ -27,6 +27,7 @@ F64s == { <<0,0,0,0,0,0,0,0>>, <<128,0,0,0,0,0,0,0>>, <<63,240,0,0,0,0,0,0>>, <<
           <<127,240,0,0,0,0,0,0>>, <<255,240,0,0,0,0,0,0>>, <<127,248,0,0,0,0,0,0>>,
           <<64,9,33,251,84,68,45,24>>, <<67,64,0,0,0,0,0,1>> }
 Lens == IF Big THEN {0, 1, 15, 16, 23, 24, 31, 32, 255, 256, 257} ELSE {0, 1, 23, 24, 31, 32, 255, 256}
+\* (lengths of 2^15 and more are beyond what the TLC trace validation handles in reasonable time: see DESIGN)
 Strs == { <<"tstr", Rep(97, n)>> : n \in Lens } \cup { <<"tstr", <<195,169>>>>, <<"tstr", <<226,130,172,97>>>>, <<"tstr", <<240,159,152,128>>>>, <<"tstr", <<0>>>>, <<"tstr", <<34,92,47,127>>>> }
 BStrs == { <<"bstr", Rep(255, n)>> : n \in Lens } \cup { <<"bstr", <<0,1,2>>>> }
 Scalars == { <<"uint", u>> : u \in UInts } \cup { <<"nint", n>> : n \in NInts } \cup { <<"f64", f>> : f \in F64s }
@@ -51,7 +52,11 @@ RefFam == { <<"arr", Fill(n, nb) \o <<T3(900), T4(901), T3(900), T4(901), T3(1),
           { <<"map", [i \in 1..n |-> <<T3(i), T3(i)>>]>> : n \in {1, 23, 24, 25} } \cup
           { <<"arr", << <<"arr", Fill(3, 1)>>, <<"arr", Fill(3, 1)>>, <<"map", <<<<T3(2), T3(3)>>>>>> >> >> }
 
+\* every scalar also as the only member of an object and the only element of an array (BSON is rooted in an object)
+Wrapped == { <<"map", << <<Key(1), x>> >>>> : x \in Scalars } \cup { <<"arr", <<x>>>> : x \in Scalars }
+           \cup { <<"map", << <<Key(1), <<"arr", <<x, x>>>>>> >>>> : x \in Scalars }
+
 Init == v = <<"null">> /\ depth = 0
-Next == depth = 0 /\ depth' = 1 /\ v' \in Scalars \cup Level1 \cup Nested \cup RefFam
+Next == depth = 0 /\ depth' = 1 /\ v' \in Scalars \cup Level1 \cup Nested \cup RefFam \cup Wrapped
 Emit == depth = 1 => PrintT(ToJson([v |-> v]))
 =============================================================================
